@@ -232,14 +232,13 @@ Fixpoint frames_ok (subs : list submsg) (bs : list Z) : bool :=
   match subs with
   | [] => is_nil bs
   | s :: r =>
-    match bs with
-    | k :: f :: l0 :: l1 :: rest =>
-      let n := match eflag f with LE => l0 + 256 * l1 | BE => l1 + 256 * l0 end in
+    match read_subhdr bs with
+    | None => false
+    | Some ((k, f, n), rest) =>
       (k =? sm_kind s) && (f =? sm_flags s) && (n <=? len rest) && flags_agreeb s &&
-      (* the n bytes that follow are the body: what the writer emits for this body *)
+      (* the n bytes that follow are the body: as many as the writer emits for this body *)
       (n =? len (enc_body (eflag f) (sm_body s))) &&
       frames_ok r (skipn (Z.to_nat n) rest)
-    | _ => false
     end
   end.
 
@@ -340,8 +339,6 @@ Definition obs_eqb (m i : obs) : bool := dec2b (obs_eq_dec m i).
 (* ------------------------------------------------------------------------------------------ *)
 (* the property oracle: looks at the case and at the observation only *)
 Definition mem (x : Z) (l : list Z) : bool := existsb (Z.eqb x) l.
-Definition set_min_l (S : list Z) : Z := match S with [] => 0 | x :: r => fold_left Z.min r x end.
-Definition adj_base_l (b : Z) (S : list Z) : Z := if set_min_l S <? b then set_min_l S else b.
 
 Definition ok (c : case) (o : obs) : bool :=
   match c, o with
@@ -358,7 +355,7 @@ Definition ok (c : case) (o : obs) : bool :=
     match set with
     | [] => true
     | _ =>
-      let b' := adj_base_l base set in
+      let b' := adj_base base set in
       if (1 <=? b') && (b' + 256 <=? n_hi k) then
         (ns_base s =? b') && reread &&
         forallb (fun x => Bool.eqb (mem x it) (mem x set && (b' <=? x) && (x <? b' + 256))) (set ++ it)
@@ -367,7 +364,7 @@ Definition ok (c : case) (o : obs) : bool :=
   | CNumSet k base set, ObsPanic =>
     match set with
     | [] => false
-    | _ => let b' := adj_base_l base set in negb ((1 <=? b') && (b' + 256 <=? n_hi k))
+    | _ => let b' := adj_base base set in negb ((1 <=? b') && (b' + 256 <=? n_hi k))
     end
   | _, _ => false
   end.
